@@ -299,6 +299,10 @@ func vpRegexMatches(pattern, text string) bool {
 	return err == nil && re.MatchString(text)
 }
 
+// vpForbidden: the code under test wrote to stdout/stderr through what (executor: a FORBIDDEN
+// event; natively the write happens and is captured by the replay driver).
+func vpForbidden(what string) {}
+
 // vpSetClock pins the executor's clock model: 0 arbitrary elapsed times (default), 1 time.Since
 // reports a very long time, 2 time.Since reports zero. No effect natively.
 func vpSetClock(mode int) {}
